@@ -16,7 +16,7 @@ ENGINE = {'name': 'caddyfile',
          '1-2 global layer4 blocks with 0-3 (rarely 11) servers, every 4th case in listener-wrapper form, nesting depth 1-3, 30% of route blocks with '
          'shuffled directive order, every 2nd configuration with the option lines inside every module block (also nested upstream / '
          'connection_policy blocks) in random order and well-populated proxy blocks mixing health_checks.active/passive, load_balancing and '
-         'upstream tls_* options, every 5th with appending options repeated over two lines); each is printed as Caddyfile text and as the JSON it states, adapted twice by the real adapter, compared as '
+         'upstream tls_* options, 2 of 5 with every appending option (commands networks ports auth_methods allow cookie_ip cookie_port dial tls_curves tls_except_ports credentials alpn ciphers curves) written with long lists spread over 2-3 lines; cert_selection options always as 0-2 lines of 1-3 values); each is printed as Caddyfile text and as the JSON it states, adapted twice by the real adapter, compared as '
          'parsed JSON, loaded with caddy.Validate, decoded into layer4.App and into every module struct and re-encoded; plus a fixed stream of '
          'syntactically valid / semantically invalid values that the adapter must accept; a case is non-trivial when the configuration has at '
          'least one named matcher set and one nested handler (tee/subroute); distinct = distinct Coq terms',
@@ -26,8 +26,8 @@ ENGINE = {'name': 'caddyfile',
  'modelled': ['layer4/caddyfile.go: ParseCaddyfileNestedRoutes, ParseCaddyfileNestedHandlers, ParseCaddyfileNestedMatcherSet, SetModuleNameInline, '
               'parseLayer4 (several global blocks); Server / ListenerWrapper / subroute / tee / not UnmarshalCaddyfile; block structure of the token '
               'stream (what Next/NextArg/NextBlock/NextSegment walk)',
-              'leaf UnmarshalCaddyfile + JSON encoding modelled AND leaf equation proved (parse (print x) = json x): matchers ssh xmpp postgres proxy_protocol socks4 socks5 regexp clock wireguard winbox remote_ip local_ip dns rdp openvpn, tls and quic (sets of sni / alpn / remote_ip incl. "!" and private_ranges / local_ip), http (a set of host / path / method and not over them); handlers echo proxy_protocol throttle (integral and canonical decimal rates) socks5 proxy (upstream incl. tls_* options and tls_trust_pool inline, health checks, load balancing, six selection policies) tls (connection_policy: alpn ciphers curves default_sni drop fallback_sni protocols match)',
-              'abstract / oracle only: request matchers other than host path method not inside http (Caddy parsers; repeated request matchers are merged by Caddy, the model covers distinct names), cert_selection / client_auth / insecure_secrets_log of a connection policy, CA pool modules other than inline, deprecated tls_trusted_ca_*, exponent-form rates; Caddy lexer, Dispenser cursor, error texts, module loader'],
+              'leaf UnmarshalCaddyfile + JSON encoding modelled AND leaf equation proved (parse (print x) = json x): matchers ssh xmpp postgres proxy_protocol socks4 socks5 regexp clock wireguard winbox remote_ip local_ip dns rdp openvpn, tls and quic (sets of sni / alpn / remote_ip incl. "!" and private_ranges / local_ip), http (a set of host / path / method and not over them); handlers echo proxy_protocol throttle (integral and canonical decimal rates) socks5 proxy (upstream incl. tls_* options and tls_trust_pool inline, health checks, load balancing, six selection policies) tls (connection_policy: alpn ciphers curves default_sni drop fallback_sni protocols match, cert_selection with all_tags / any_tag / serial_number / subject_organization each on any number of lines)',
+              'abstract / oracle only: request matchers other than host path method not inside http (Caddy parsers; repeated request matchers are merged by Caddy, the model covers distinct names), client_auth / insecure_secrets_log of a connection policy, cert_selection public_key_algorithm (its JSON number does not decode back in caddytls PublicKeyAlgorithm.UnmarshalJSON), CA pool modules other than inline, deprecated tls_trusted_ca_*, exponent-form rates; Caddy lexer, Dispenser cursor, error texts, module loader'],
  'assumptions': ['adapt_structural is proved for configurations satisfying config_ok (distinct set names, references defined, non-empty named sets, '
                  'distinct matcher names per set, durations within int64, leaf domains); the checker recomputes config_ok on every case',
                  'durations are single-component <integer><unit>; float options are unsigned integer literals or canonical decimals <int>.<frac> (at most 9+6 digits) whose strconv.ParseFloat / encoding/json round trip is assumed to be the literal itself']}
